@@ -25,6 +25,8 @@ import MajoranaVerif.Proofs.Mvp4Spec
 import MajoranaVerif.Proofs.Mvp4Terminates
 import MajoranaVerif.Proofs.Mvp5Total
 import MajoranaVerif.Proofs.Mvp60Witness2
+import MajoranaVerif.Proofs.Mvp60SlRun
+import MajoranaVerif.Proofs.Mvp60SlWitness
 open GoInt Model Model.Seq Proofs.Refine
 
 namespace Props.C01
@@ -491,5 +493,104 @@ theorem mvp60_shadow_witness_correct :
   obtain ⟨_, _, a, _⟩ := Proofs.Mvp60Witness.obsSeq_eq Proofs.Mvp60Witness.shadow_seq
   obtain ⟨b, _, c, d, e, _⟩ := Proofs.Mvp60Witness.obs_eq Proofs.Mvp60Witness.shadow_p2
   exact ⟨a, b, c, d, e⟩
+
+end Props.C01
+
+/-! ## MVP-6.0 (package R60): correctness of the first superscalar variant on register-only programs
+
+`Full_mvp60_regonly_correct` is the statement for the class `Model.Mvp60.RegOnly` (no load/store, no `div`/`rem`, every
+used label defined; branches, jumps, calls, `ret` allowed).  It is NOT proved; the check asserts it on every generated case
+of the class (field `r60` of the driver: class member ⇒ the model's run at every evaluated parallelism ends like the
+reference with the reference's registers and memory) and it has held on every seed so far.  What is proved is the clause for
+straight-line programs (`mvp60_straightline_correct`), for EVERY number of execute/write units: in-order issue with the
+RAW/WAW/WAR scoreboards, up to two instructions executed per tick on different units, results queued on the write bus and
+written back in order by the write units.  `div`/`rem` and undefined labels are excluded from `RegOnly` because a wrong-path
+instruction raises its error (`Props.C07.mvp60_wrong_path_error`); in a straight-line program there is no wrong path, so
+`StraightLine` allows `div`/`rem`. -/
+namespace Props.C01
+
+/-- **C01 for MVP-6.0, full clause (not proved; asserted by the check on every generated case of the class).**  For every
+parsed register-only program, every initial state related to a specification machine, every parallelism 1..4: (safety) if
+the model run ends and the specification run ends within its fuel, they end the same way with the specification's registers
+and memory; (totality) if the specification run is well-formed and ends, the model run ends within some tick budget, not
+with a Go panic. -/
+def Full_mvp60_regonly_correct : Prop :=
+  ∀ (app : App), WfApp app → Model.Mvp60.RegOnly app = true →
+  ∀ (ctx : Model.Context) (m : Spec.Machine), Rel ctx m → (∀ r, GoMap.get1 ctx.PendingWriteRegisters r = 0) →
+  ∀ (K : Nat), 1 ≤ K → K ≤ 4 → ∀ (fuel : Nat),
+    (∀ (ticks : Nat) (hk : Halt), (Model.Mvp60.run app ctx K K ticks).halt = some hk → (∀ w, hk ≠ .panic w) →
+      Agree4 (Spec.run (specProg app) m fuel) hk (Model.Mvp60.run app ctx K K ticks).final.ctx) ∧
+    ((∀ why, (Spec.run (specProg app) m fuel).stop ≠ .notWf why) →
+      ∃ ticks hk, (Model.Mvp60.run app ctx K K ticks).halt = some hk ∧ ∀ w, hk ≠ .panic w)
+
+/-- **C01 for MVP-6.0 on straight-line register-only programs (safety), every number `K` of execute and write units.**
+Every parsed program without load/store, branch, jump and `ret`, every initial state related to a specification machine,
+every fuel and every tick budget: if the run of the MVP-6.0 model ends (past the last instruction, or with an error value)
+and the specification run ends within its fuel, they end the same way, and past the end the final registers and memory of
+the model are the specification's. -/
+theorem mvp60_straightline_correct (app : App) (hw : WfApp app) (hsl : Model.Mvp60.StraightLine app = true)
+    (ctx : Model.Context) (m : Spec.Machine) (hR : Rel ctx m) (hpw : ∀ r, GoMap.get1 ctx.PendingWriteRegisters r = 0)
+    (K fuel ticks : Nat) (hk : Halt)
+    (hh : (Model.Mvp60.run app ctx K K ticks).halt = some hk) (hnp : ∀ w, hk ≠ .panic w) :
+    Agree4 (Spec.run (specProg app) m fuel) hk (Model.Mvp60.run app ctx K K ticks).final.ctx := by
+  have h1 := mvp1_correct app hw ctx m hR fuel
+  unfold Agree at h1
+  unfold Agree4
+  obtain ⟨n, e1, e2⟩ := Proofs.Mvp60Sl.mvp60_sl_refines_mvp1 app ⟨hw.small, hw.nofwd, hsl⟩ ctx ⟨hR.rat, hR.tx, hpw⟩ K ticks hk hh hnp
+  cases hstop : (Spec.run (specProg app) m fuel).stop with
+  | notWf w => trivial
+  | ret =>
+    rw [hstop] at h1
+    simp only at h1 ⊢
+    obtain ⟨u1, u2⟩ := Proofs.Mvp4.run_halt_unique mvp1Fetch mvp1Fetch app ⟨ctx, 0#32⟩ n fuel hk .ret e1 h1.1
+    subst u1
+    obtain ⟨f1, f2⟩ := e2 (by intro hc; cases hc)
+    have hfin : (runMvp1 app ⟨ctx, 0#32⟩ n).final = (runMvp1 app ⟨ctx, 0#32⟩ fuel).final := u2
+    refine ⟨rfl, fun r => ?_, ?_⟩
+    · rw [f1, hfin]; exact h1.2.1.regs r
+    · rw [f2, hfin]; exact h1.2.1.mem
+  | offEnd =>
+    rw [hstop] at h1
+    simp only at h1 ⊢
+    obtain ⟨u1, u2⟩ := Proofs.Mvp4.run_halt_unique mvp1Fetch mvp1Fetch app ⟨ctx, 0#32⟩ n fuel hk .offEnd e1 h1.1
+    subst u1
+    obtain ⟨f1, f2⟩ := e2 (by intro hc; cases hc)
+    have hfin : (runMvp1 app ⟨ctx, 0#32⟩ n).final = (runMvp1 app ⟨ctx, 0#32⟩ fuel).final := u2
+    refine ⟨rfl, fun r => ?_, ?_⟩
+    · rw [f1, hfin]; exact h1.2.1.regs r
+    · rw [f2, hfin]; exact h1.2.1.mem
+  | error er =>
+    rw [hstop] at h1
+    simp only at h1 ⊢
+    exact (Proofs.Mvp4.run_halt_unique mvp1Fetch mvp1Fetch app ⟨ctx, 0#32⟩ n fuel hk .err e1 h1.1).1
+
+end Props.C01
+
+namespace Props.C01
+
+/-- Non-vacuity of `mvp60_straightline_correct`: a member of the class with read-after-write, write-after-write and
+write-after-read dependences, a `mul` and a `div` (`Proofs.Mvp60SlWitness.slApp`); the model with two and with four units
+falls off the end with exactly the registers of MVP-1 (`t0 = 64`, `t1 = 8`, `t2 = -56`) -/
+example : Model.Mvp60.StraightLine Proofs.Mvp60SlWitness.slApp = true ∧
+    Proofs.Mvp60SlWitness.obsR (Model.Mvp60.run Proofs.Mvp60SlWitness.slApp Proofs.Mvp60SlWitness.ctx0 2 2 2000).halt
+        (Model.Mvp60.run Proofs.Mvp60SlWitness.slApp Proofs.Mvp60SlWitness.ctx0 2 2 2000).final.ctx =
+      Proofs.Mvp60SlWitness.obsR (runMvp1 Proofs.Mvp60SlWitness.slApp ⟨Proofs.Mvp60SlWitness.ctx0, 0⟩ 20).halt
+        (runMvp1 Proofs.Mvp60SlWitness.slApp ⟨Proofs.Mvp60SlWitness.ctx0, 0⟩ 20).final.ctx ∧
+    Proofs.Mvp60SlWitness.obsR (Model.Mvp60.run Proofs.Mvp60SlWitness.slApp Proofs.Mvp60SlWitness.ctx0 4 4 2000).halt
+        (Model.Mvp60.run Proofs.Mvp60SlWitness.slApp Proofs.Mvp60SlWitness.ctx0 4 4 2000).final.ctx =
+      Proofs.Mvp60SlWitness.obsR (runMvp1 Proofs.Mvp60SlWitness.slApp ⟨Proofs.Mvp60SlWitness.ctx0, 0⟩ 20).halt
+        (runMvp1 Proofs.Mvp60SlWitness.slApp ⟨Proofs.Mvp60SlWitness.ctx0, 0⟩ 20).final.ctx :=
+  ⟨Proofs.Mvp60SlWitness.sl_class, Proofs.Mvp60SlWitness.sl_p2.trans Proofs.Mvp60SlWitness.sl_seq.symm,
+   Proofs.Mvp60SlWitness.sl_p4.trans Proofs.Mvp60SlWitness.sl_seq.symm⟩
+
+/-- An instance of `Full_mvp60_regonly_correct` (K = 2): a member of `RegOnly` that is not straight-line — a loop, a call
+(`jal`) and return (`jalr`), a `mul`, a final `ret` (`Proofs.Mvp60SlWitness.loopApp`) — on which the two-unit model ends
+with `ret` and the registers of MVP-1 (`a0 = 36`, `ra = 12`, `s0 = 0`) -/
+example : Model.Mvp60.RegOnly Proofs.Mvp60SlWitness.loopApp = true ∧
+    Proofs.Mvp60SlWitness.obsR (Model.Mvp60.run Proofs.Mvp60SlWitness.loopApp Proofs.Mvp60SlWitness.ctx0 2 2 5000).halt
+        (Model.Mvp60.run Proofs.Mvp60SlWitness.loopApp Proofs.Mvp60SlWitness.ctx0 2 2 5000).final.ctx =
+      Proofs.Mvp60SlWitness.obsR (runMvp1 Proofs.Mvp60SlWitness.loopApp ⟨Proofs.Mvp60SlWitness.ctx0, 0⟩ 40).halt
+        (runMvp1 Proofs.Mvp60SlWitness.loopApp ⟨Proofs.Mvp60SlWitness.ctx0, 0⟩ 40).final.ctx :=
+  ⟨Proofs.Mvp60SlWitness.loop_class.1, Proofs.Mvp60SlWitness.loop_p2.trans Proofs.Mvp60SlWitness.loop_seq.symm⟩
 
 end Props.C01
